@@ -1,16 +1,21 @@
 #!/usr/bin/env python3
 """Folds evaluation results (lines `<seed> <check> <tier> rc=<n> viol=[...]` as written by
 tools/seedmatrix.sh / mutmatrix.sh) into seeded/<id>/meta.json (caught_by) and seeded/RESULTS.md.
-usage: seedresults.py <matrix.txt> [<mutmatrix.txt>]"""
+usage: seedresults.py <matrix.txt> [<mutmatrix.txt> [<later-matrix.txt> ...]]
+Rows of later matrices override earlier ones; `evaluated_at` is refreshed only for the seeds of the last matrix given."""
 import json, os, re, sys, subprocess
 ROOT = os.path.dirname(os.path.dirname(os.path.abspath(__file__)))
 head = subprocess.run(["git", "-C", ROOT, "rev-parse", "--short", "HEAD"], capture_output=True, text=True).stdout.strip()
 repo_head = subprocess.run(["git", "-C", "/repo", "rev-parse", "--short", "HEAD"], capture_output=True, text=True).stdout.strip()
 rows = {}
-for l in open(sys.argv[1]):
-    m = re.match(r"(\S+) (\S+) (\S+) rc=(-?\d+) viol=\[(.*?)\]", l)
-    if m:
-        rows[(m.group(1), m.group(2), m.group(3))] = (int(m.group(4)), m.group(5).strip())
+last_seeds = set()
+for f in [sys.argv[1]] + sys.argv[3:]:
+    last_seeds = set()
+    for l in open(f):
+        m = re.match(r"(\S+) (\S+) (\S+) rc=(-?\d+) viol=\[(.*?)\]", l)
+        if m:
+            rows[(m.group(1), m.group(2), m.group(3))] = (int(m.group(4)), m.group(5).strip())
+            last_seeds.add(m.group(1))
 by_seed = {}
 for (s, c, t), (rc, v) in rows.items():
     by_seed.setdefault(s, {})["%s/%s" % (c, t)] = {"exit": rc, "verdict": "caught" if rc == 1 else ("missed" if rc == 0 else "check-broken(%d)" % rc), "violations_reported": v}
@@ -22,7 +27,8 @@ for d in sorted(os.listdir(os.path.join(ROOT, "seeded"))):
         continue
     meta = json.load(open(mp))
     meta["caught_by"] = by_seed.get(d, meta.get("caught_by", {}))
-    meta["evaluated_at"] = {"verif": head, "repo": repo_head, "how": "tools/seedtest.sh: scratch worktree of /repo HEAD with the patch applied + the committed harness; quick tier unless stated"}
+    if d in last_seeds or "evaluated_at" not in meta:
+        meta["evaluated_at"] = {"verif": head, "repo": repo_head, "how": "tools/seedtest.sh: scratch worktree of /repo HEAD with the patch applied + the committed harness; quick tier unless stated"}
     json.dump(meta, open(mp, "w"), indent=1)
     caught = sorted(k for k, v in meta["caught_by"].items() if v["verdict"] == "caught")
     missed = sorted(k for k, v in meta["caught_by"].items() if v["verdict"] == "missed")
